@@ -27,7 +27,12 @@ typedef struct {
 	size_t skip;             // bytes of input consumed by init (Block Header)
 	// Handle reuse: when warm_in != NULL the same lzma_stream is first initialised with this decoder and fed
 	// warm_in completely (result ignored), then initialised AGAIN without lzma_end() and used for the real input.
+	// What the first life does is derived from the real input (so every run of a case sees the same): warm_in whole,
+	// a prefix of it (abandoned mid-stream, LZMA_RUN only), or a built-in "contrast" file of the same format whose
+	// header fields, check type and filter chain differ from what generators usually produce - whole or abandoned.
+	// With warm_mon set, one allocation of the first life fails (warm_fail_at-th; 0 = none).
 	const uint8_t *warm_in; size_t warm_n;
+	alloc_mon *warm_mon; int warm_fail_at;
 } dec_spec;
 
 /// Which decoders make sense for a generated/corpus stream kind.
